@@ -1,6 +1,6 @@
 PROP = {
     "level": "proof",
-    "legs": ["c02-entry", "c03-accel"],
+    "legs": ["c02-entry", "c02-filter", "c03-accel"],
     "timeout_quick": 600,
     "trusted_base": TB_COMMON + ["oracles (class membership, ToLower, word tests) universally quantified in the theorems"],
     "assumptions": ASSUME_COMMON + [
